@@ -227,11 +227,13 @@ def summary_groupby_record_valued(doc, table_id):
         if isinstance(v, list) and v and v[0] != 'L':
           return True
       src = cols.get(c['summarySourceCol'])
-      if src and src['type'].split(':')[0] not in ('ChoiceList', 'RefList'):
+      if src:
+        is_list_col = src['type'].split(':')[0] in ('ChoiceList', 'RefList')
         if src_rep is None:
           src_rep = doc.fetch_repr(tids[src['parentId']])
         for v in src_rep[3].get(src['colId'], []):
-          if isinstance(v, list) and v:      # errors, records, lists in a scalar column of the source
+          # errors, records (anywhere); lists in a scalar column of the source
+          if isinstance(v, list) and v and (v[0] != 'L' or not is_list_col):
             return True
   return False
 
